@@ -13,6 +13,9 @@ FK_RULE = ("generated block forests of 3-25 (thorough: up to 48) blocks hanging 
 FK_TB = ["forkable.Forkable / ForkDB modelled by hand in Model/ForkDB.v, Model/Forkable.v (lastLongestChain cache, EnsureBlockFlows, "
          "unlinkable-block counters, logging not modelled); every run compares model and implementation event by event "
          "(step, block, cursor block/head/LIB, junction, StepIndex/StepCount, result, HeadInfo)",
+         "W3: observed besides the Coq event fields and evaluated by the property bit: cursor step (projected onto the cursor block), "
+         "identity of the delivered block / wrapped object / StepBlocks against what was fed (proto.Equal, pointer), errors.Is of the "
+         "returned error; C03: the real code is run again with other kept values and without re-fed / below-LIB blocks",
          "Go map iteration order is abstracted (sorted on both sides)"]
 
 TEXT = {
@@ -22,27 +25,31 @@ TEXT = {
  "C02": "Finality chain / oldest-pending / never-revoked / stalled clauses as the monitor c02_b (Spec/Consumer.v) on implementation traces "
         "of lib_ok histories, plus model correspondence.",
  "C03": "The reference fork choice Spec/ForkChoice.v (received set, LIB, tip) is run alongside every implementation trace: consumer tip, "
-        "HeadInfo and last final block must equal the reference after every block; plus model correspondence.",
+        "HeadInfo and last final block must equal the reference after every block; a block the reference ignores delivers nothing; "
+        "the real code's events do not change with the kept value nor when re-fed / below-LIB blocks are removed; plus model correspondence.",
  "C04": "Cursor fields of every event (block, head = incoming block, LIB = last announced final block, LIB monotone and <= block height, "
-        "junction = block the stack rests on after the undo batch) as the monitor c04_b on implementation traces; plus model correspondence.",
+        "junction = block the stack rests on after the undo batch) as the monitor c04_b on implementation traces, cursor step = event step, "
+        "LIB height monotone for every filter of the scope (cursor_lib_mono_b); plus model correspondence.",
  "C18": "Buffer bound after LIB moves, retention by hash and by number, canonical lookup on the consumer chain, head info, lowest "
         "servable number, no lookup crash: monitor c18_follow on the implementation's lookup results after every block; the lookup API "
         "is modelled (Model/ForkableLookups.v) and compared as well.",
 }
 
-for pid, v, sc in [("C01", "c01_verdicts", "c01_in_scope"), ("C02", "c02_verdicts", "c02_in_scope"),
-                   ("C03", "c03_verdicts", "c03_in_scope"), ("C04", "c04_verdicts", "c04_in_scope"),
+# W3: the case of C01-C04 is fk_xcase = the family's case (projection x_k: the scope counters speak about it) + what the harness
+# observes besides the Coq event fields (per-event identity flags, C03's independence bits); C18 keeps fk_case
+for pid, v, sc in [("C01", "c01_xverdicts", "c01_in_scope"), ("C02", "c02_xverdicts", "c02_in_scope"),
+                   ("C03", "c03_xverdicts", "c03_in_scope"), ("C04", "c04_xverdicts", "c04_in_scope"),
                    ("C18", "c18_verdicts", "c18_in_scope")]:
     reg(pid,
         check_imports=["Model.Block", "Model.ForkDB", "Model.Forkable", "Check.Fk_Check", "Check.Fk_Props_Check", "Check.Fk_Moving_Scope"],
-        case_type="fk_case", verdicts=v, scope=sc,
+        case_type="fk_case" if pid == "C18" else "fk_xcase", case_proj=None if pid == "C18" else "x_k", verdicts=v, scope=sc,
         property_modules=[], theorems=[],
         proof_files=list(FK_MODEL),
         n_quick=500 if pid != "C18" else 250, n_thorough=30000 if pid != "C18" else 8000, n_escalate=4000,
         also=([{"harness": "C05", "check_imports": ["Model.Block", "Model.Forkable", "Model.Burst", "Check.Fk_Check", "Check.Burst_Check", "Check.C06_Check", "Check.C04_More"],
                 "case_type": "br_case", "verdicts": "c04_burst_verdicts", "scope": None, "n_quick": 150, "n_thorough": 5000},
                {"harness": "C06", "check_imports": ["Model.Block", "Model.Forkable", "Model.Burst", "Model.CursorResolver", "Check.Fk_Check", "Check.Burst_Check", "Check.C06_Check", "Check.C04_More"],
-                "case_type": "c06_case", "verdicts": "c04_file_verdicts", "scope": None, "n_quick": 200, "n_thorough": 5000}] if pid == "C04" else []),
+                "case_type": "c06_case", "verdicts": "c04_file_verdicts_w3", "scope": None, "n_quick": 200, "n_thorough": 5000}] if pid == "C04" else []),
         rule=FK_RULE, level_text=TEXT[pid], trusted_base=FK_TB,
         assumptions=["well-formed universe (wf_b): ids non-empty and unique, heights strictly increase from parent to child",
                      "C02-C04, C18: LIB declarations in the class lib_ok (Spec/Universe.v); other histories are compared with the model only"])
